@@ -27,10 +27,18 @@ let handle (f : string array) : string =
     let cc = match f.(8) with "n" -> 0 | "t" -> 1 | "u" -> 2 | _ -> failwith "ccert" in
     let a = { a_mode = mode; a_ckind = kind; a_csuites = suites_of f.(4); a_ssuites = suites_of f.(5);
               a_prefer = (f.(6) = "1"); a_auth = n (int_of_string f.(7)); a_ccert = n cc;
-              a_callbacks = (if peer = "gs" then false else f.(9) = "1"); a_tickets = (f.(10) = "1") } in
+              a_callbacks = (if peer = "gs" then false else f.(9) = "1"); a_tickets = (f.(10) = "1");
+              a_pool = (Array.length f < 19 || f.(15) = "1") } in
+    let conns = if Array.length f < 19 then 1 else int_of_string f.(16) in
+    let more =
+      if conns <= 1 then "-"
+      else
+        let log = reconnect_log a in
+        String.concat "" (List.filteri (fun i _ -> i >= 1 && i < conns)
+          (List.map (fun r -> match r.r_cls with Resumed | Full -> "C" | Failed -> "E" | Crashed -> "P") log)) in
     (match honest_run a with
      | (Done rc, Done rs) ->
-       Printf.sprintf "ok C %s %s 1 %s %s 1" (hex4 rc.res_vers) (hex4 rc.res_suite) (label_s rc.res_peer) (label_c rs.res_peer)
+       Printf.sprintf "ok C %s %s 1 %s %s 1 %s" (hex4 rc.res_vers) (hex4 rc.res_suite) (label_s rc.res_peer) (label_c rs.res_peer) more
      | (Errored, Errored) -> "ok E"
      | (Done _, _) -> "ok 1c"
      | (_, Done _) -> "ok 1s"
